@@ -99,6 +99,11 @@ def spec_oracle(nodes, labels, edges):
     return valid, order
 
 
+def wrap64(x):
+    """numpy's cast to int64 (the validator casts ids and tracklet ids to int64 first)"""
+    return (x + 2 ** 63) % 2 ** 64 - 2 ** 63
+
+
 def is_dag(edges):
     import networkx as nx
 
@@ -132,10 +137,11 @@ def impl_obs(case):
         return impl_via_validate_data(case)
     from geff.validate.tracks import validate_tracklets
 
-    e = np.asarray(case["edges"], dtype=np.int64).reshape(-1, 2)
+    dt = np.dtype(case.get("dtype", "int64"))
+    e = np.asarray(case["edges"], dtype=dt).reshape(-1, 2)
     try:
-        valid, errors = validate_tracklets(np.asarray(case["nodes"], dtype=np.int64), e,
-                                           np.asarray(case["labels"], dtype=np.int64))
+        valid, errors = validate_tracklets(np.asarray(case["nodes"], dtype=dt), e,
+                                           np.asarray(case["labels"], dtype=dt))
     except Exception as ex:  # noqa: BLE001
         return {"exc": type(ex).__name__}
     return {"valid": bool(valid), "errors": parse_errors(errors)}
@@ -150,9 +156,10 @@ def _memory_geff(case):
         edge_props_metadata={}, track_node_props={"tracklet": "trk"},
     )
     miss = case.get("missing")
-    return {"metadata": md, "node_ids": np.asarray(case["nodes"], dtype=np.int64),
-            "edge_ids": np.asarray(case["edges"], dtype=np.int64).reshape(-1, 2),
-            "node_props": {"trk": {"values": np.asarray(case["labels"], dtype=np.int64),
+    dt = np.dtype(case.get("dtype", "int64"))
+    return {"metadata": md, "node_ids": np.asarray(case["nodes"], dtype=dt),
+            "edge_ids": np.asarray(case["edges"], dtype=dt).reshape(-1, 2),
+            "node_props": {"trk": {"values": np.asarray(case["labels"], dtype=dt),
                                    "missing": None if miss is None else np.asarray(miss, dtype=bool)}},
             "edge_props": {}}
 
@@ -315,6 +322,18 @@ def random_forest(rng, nmax=40, big=False):
     return {"nodes": names, "labels": labels, "edges": edges, "missing": missing, "_edit": edit}
 
 
+def uint64_case(rng):
+    """small forest whose node ids and tracklet ids are uint64 values >= 2^63"""
+    c = random_forest(rng, nmax=8)
+    c["missing"] = None
+    big = lambda x: 2 ** 63 + (x % 1000) + 500  # noqa: E731  (injective on the small pools used)
+    c["nodes"] = [big(x) for x in c["nodes"]]
+    c["edges"] = [[big(u), big(v)] for u, v in c["edges"]]
+    c["labels"] = [big(x) for x in c["labels"]]
+    c["dtype"] = "uint64"
+    return c
+
+
 def random_small_dag(rng, n):
     order = list(range(n))
     rng.shuffle(order)
@@ -372,6 +391,8 @@ def judge(ck, c, im, mo):
     else:
         s_valid = s_bad = None
         tag = "out-of-domain(cyclic/dup ids/phantom)"
+    if c.get("dtype") == "uint64":
+        tag += ":uint64>=2^63"
     if c.get("_edit"):
         tag += ":" + c["_edit"]
     ck.case(c, tag, nontrivial=bool(c["edges"]) or len(set(c["labels"])) > 1)
@@ -388,6 +409,10 @@ def judge(ck, c, im, mo):
                     key = "C13:rejects-valid-masked" if masked else "C13:rejects-valid"
                 ck.fail(key, f"tracklet validation returned {im['valid']} but the documented definition says {s_valid}"
                         + (" (ids flagged missing)" if masked else ""), c, im, expected)
+            elif ibad != s_bad and ibad == [wrap64(x) for x in s_bad]:
+                ck.fail("C13:uint64-id-wrapped-in-message",
+                        f"uint64 tracklet ids >= 2^63: offending tracklets {s_bad} are named {ibad} in the messages",
+                        c, im, expected)
             elif ibad != s_bad:
                 ck.fail("C13:wrong-offenders", f"messages name tracklets {ibad} but the offending ones are {s_bad}",
                         c, im, expected)
@@ -401,7 +426,7 @@ def judge(ck, c, im, mo):
             me = [{k: (int(v) if k in ("t", "n") else v) for k, v in e.items()} for e in mo["errors"]]
             if mo["valid"] != im["valid"] or me != im["errors"]:
                 ck.corr_broken("C13:validateTracklets", c, im, {"valid": mo["valid"], "errors": me})
-            if dom and (mo["valid"] != s_valid or [e["t"] for e in me] != s_bad):
+            if dom and (mo["valid"] != s_valid or [e["t"] for e in me] != [wrap64(x) for x in s_bad]):
                 ck.corr_broken("C13:model-vs-python-oracle", c, {"valid": s_valid, "bad": s_bad}, mo)
 
 
@@ -427,6 +452,8 @@ def run(ck: common.Check):
         cases.append(random_small_dag(ck.rng, 5 + i % 2))
     for i in range(5000 if ck.quick else 60000):
         cases.append(random_forest(ck.rng, nmax=40 if i % 3 else 12, big=(i % 10 == 0)))
+    for i in range(60 if ck.quick else 600):
+        cases.append(uint64_case(ck.rng))
     cases.extend([
         {"nodes": [], "labels": [], "edges": [], "missing": None},
         {"nodes": [1, 2], "labels": [5, 5], "edges": [[1, 1], [1, 2], [1, 2]], "missing": None},
@@ -469,7 +496,9 @@ def run(ck: common.Check):
     ck.assumptions += [
         "networkx DiGraph construction, subgraph views, degree views, is_directed_acyclic_graph and "
         "is_weakly_connected are modelled (distinct-neighbour lists, Kahn elimination, component closure), not verified",
-        "ids and tracklet ids are int64 (the function casts to int64); the theorems are over any DecidableEq id type",
+        "the function casts node ids, edges and tracklet ids to int64; the model does the same (toInt64), "
+        "C13_int64_cast_identity shows the cast is the identity in the int64 range; uint64 ids >= 2^63 wrap: verdict "
+        "unchanged, message names the wrapped id (known finding C13:uint64-id-wrapped-in-message)",
         "C13_iff assumes unique node ids (validated separately, C12) and an acyclic graph (the property's domain); "
         "on cyclic graphs the validator additionally rejects tracklets that are directed cycles",
         "the node named after 'extend backward/forward to node' is compared with the model too (not part of the property)",
